@@ -366,9 +366,63 @@ def _canary(rule):
 
 def det1(ctx, c):
     _emit(ctx, c, "DET-1")
+    repo = ctx.repo
+    # process-wide state: the working directory, the environment, the import path, the locale, the random seed
+    GLOBAL_SETTERS = ("os.chdir", "os.putenv", "os.unsetenv", "os.umask", "sys.path.append", "sys.path.insert", "sys.setrecursionlimit", "locale.setlocale", "random.seed",
+                      "os.environ.update", "os.environ.setdefault", "os.environ.pop")
+    for f in repo.all_funcs():
+        if not f.module.rel.startswith("cocoasm/"):
+            continue
+        for x in ast.walk(f.node):
+            hit = None
+            if isinstance(x, ast.Call) and U(x.func) in GLOBAL_SETTERS:
+                hit = U(x.func)
+            if isinstance(x, (ast.Assign, ast.AugAssign, ast.Delete)):
+                for t in (x.targets if isinstance(x, (ast.Assign, ast.Delete)) else [x.target]):
+                    if isinstance(t, ast.Subscript) and U(t.value) == "os.environ":
+                        hit = "os.environ[...]"
+            if hit:
+                # restored on every exit?  only a try/finally (or a context manager) does that
+                fin = [t for t in ast.walk(f.node) if isinstance(t, ast.Try) and t.finalbody and any(isinstance(y, ast.Call) and U(y.func) == hit for b in t.finalbody for y in ast.walk(b))]
+                inside_try = any(any(x is y for y in ast.walk(ast.Module(body=t.body, type_ignores=[]))) for t in fin)
+                before_try = any(getattr(x, "lineno", 0) < t.lineno for t in fin)
+                if not (fin and (inside_try or before_try)):
+                    c.finding("%s:%s" % (f.q, hit), "process-wide state is changed and not restored on every exit",
+                              "%s calls %s: the change outlives the assembly when an exception passes through (no try/finally restores it), so what a later assembly in the same "
+                              "process does depends on how an earlier one ended" % (f.q, hit), repo.loc(f, x))
+    # one object of a repository class created at import time and handed out to callers that store into objects of that class
+    mutable_cls = {}
+    for m in repo.modules.values():
+        for cl in m.classes.values():
+            bases = [b.split(".")[-1] for b in cl.bases]
+            if any(b in ("NamedTuple", "Enum", "IntEnum", "Flag", "tuple", "str", "int", "Exception") for b in bases):
+                continue
+            init = cl.methods.get("__init__")
+            fields = {U(t)[5:] for n_ in ast.walk(init.node) if isinstance(n_, ast.Assign) for t in n_.targets if U(t).startswith("self.")} if init else set()
+            if fields:
+                mutable_cls[cl.name] = fields
+    for m in repo.modules.values():
+        if not (m.rel.startswith("cocoasm/") or m.rel in ("assembler.py", "file_util.py")):
+            continue
+        for name, val in m.assigns.items():
+            if isinstance(val, ast.Call) and U(val.func) in mutable_cls:
+                cls_ = U(val.func)
+                users = [f for f in repo.all_funcs() if any(isinstance(x, ast.Name) and x.id == name for x in ast.walk(f.node))]
+                handed = [f for f in users if any(isinstance(x, ast.Return) and x.value is not None and any(isinstance(y, ast.Name) and y.id == name for y in ast.walk(x.value))
+                                                  for x in ast.walk(f.node))
+                          or any(isinstance(x, ast.Assign) and isinstance(x.targets[0], ast.Attribute) and any(isinstance(y, ast.Name) and y.id == name for y in ast.walk(x.value))
+                                 for x in ast.walk(f.node))]
+                stores = [(f, x) for f in repo.all_funcs() for x in ast.walk(f.node)
+                          if isinstance(x, (ast.Assign, ast.AugAssign)) for t in (x.targets if isinstance(x, ast.Assign) else [x.target])
+                          if isinstance(t, ast.Attribute) and t.attr in mutable_cls[cls_] and U(t.value) not in ("self", "cls") and
+                          (f.cls is None or f.cls.name != cls_)]
+                if handed and stores:
+                    c.finding("%s:%s" % (m.rel, name), "one %s object created at import time is handed out by %s" % (cls_, handed[0].q),
+                              "%s = %s in %s is a single object; %s gives it to its callers, and %s stores into the %s of such objects in place (`%s`): what one assembly writes there is "
+                              "seen by every later one in the process" % (name, U(val)[:40], m.rel, handed[0].q, stores[0][0].q, cls_, U(stores[0][1])[:50]),
+                              "%s:%d" % (m.rel, getattr(val, "lineno", 0)))
     # a module- or class-level name bound to a one-shot iterator (generator expression, iter(), map(), filter(), zip()) is state:
     # every use consumes it, so what a membership test or loop over it sees depends on what ran before
-    repo = ctx.repo
     for m in repo.modules.values():
         if not (m.rel.startswith("cocoasm/") or m.rel in ("assembler.py", "file_util.py")):
             continue
